@@ -88,7 +88,10 @@ def cmp_call(d, where, exp, calls, mags, unames, unit_touched, plain=None):
             d.add("C15", "kind", f"{where}: expected no writer call, got {json.dumps(calls[0])[:300]}")
         return
     if not calls:
-        d.add("C15", "kind", f"{where}: expected a {kind} call, the value wrote nothing")
+        # silence where a unit error is due (or under a unit layer) contradicts C19, otherwise C15
+        unit_err = kind == "error" and exp.get("err") != "base"
+        d.add("C19" if unit_err or unit_touched else "C15", "error" if unit_err else "kind",
+              f"{where}: expected a {kind} call" + (f" ({exp['err']})" if unit_err else "") + ", the value wrote nothing")
         return
     g = calls[0]
     if kind == "string":
@@ -123,8 +126,12 @@ def cmp_call(d, where, exp, calls, mags, unames, unit_touched, plain=None):
         d.add("C15", "obs", f"{where}: {len(g['obs'])} observations instead of {len(exp['obs'])}: {json.dumps(g['obs'])[:300]}")
     else:
         for i, (eo, go) in enumerate(zip(exp["obs"], g["obs"])):
-            m = mags[eo["slot"] - 1]
-            want = scaled(m, eo["e2"], eo["e10"])
+            if "slots" in eo:     # a mean: the total is the sum over the observations collected
+                m = [mags[k - 1] for k in eo["slots"]]
+                want = sum((scaled(x, eo["e2"], eo["e10"]) for x in m), Fraction(0))
+            else:
+                m = mags[eo["slot"] - 1]
+                want = scaled(m, eo["e2"], eo["e10"])
             got = num(go.get("v"))
             untouched = eo["e2"] == 0 and eo["e10"] == 0 and not unit_touched
             if untouched:
@@ -290,6 +297,8 @@ def check_value_stacks(chk, rep, tier, only_units=False):
         ws = [w["w"] for w in b["stack"]]
         if b["stack"] and b["expect"]["kind"] == "metric":
             chk.nontrivial.add(vsig(b))
+        if b["base"] == "richi" and "Dim" in ws:
+            feat["dims_appended_after_own_dims_from_inexact_iterator"] += 1
         if b["base"] == "rich" and "Dim" in ws:
             feat["dims_appended_after_existing"] += 1
         if b["base"] == "rich" and "Flag" in ws:
@@ -333,6 +342,60 @@ def check_entry_stacks(chk, rep, tier):
            [("MC_estacks.cfg", "entries"), ("MC_estacks_sg_quick.cfg", "entries-sg2"), ("MC_estacks_sg.cfg", "entries-sg3")]
     for cfg, tag in cfgs:
         check_entry_cfg(chk, rep, tier, cfg, tag)
+
+
+def hsig(b):
+    w = b["wrapper"]
+    p = [",".join(w["ds"])] if w["ds"] else []
+    if w["deny"]:
+        p.append("deny")
+    if w["f"]:
+        p.append(w["f"])
+    return w["w"] + ("(" + ";".join(p) + ")" if p else "") + " after inner results [" + ",".join(st["res"] for st in b["steps"][:-1]) + "]"
+
+
+def cmp_history(d, b, ro, unames):
+    for k, (st, go) in enumerate(zip(b["steps"], ro["steps"])):
+        before = [x["res"] for x in b["steps"][:k]]
+        where = f"entry {k + 1} (inner results so far {before})"
+        if "items" not in go:
+            d.add("C15", "history", f"{where}: the inner stream/format was called {go.get('inner_calls')} times instead of once")
+            continue
+        sub = Diff()
+        cmp_entry(sub, st, go, unames)
+        for prop, cat, text in sub.v:
+            d.add(prop, "history" if prop == "C15" else cat, f"{where}: {text}")
+        d.drift.extend(sub.drift)
+        if go.get("res") != st["res"]:
+            d.drift.append({"where": where, "inner_result": st["res"], "wrapper_returned": go.get("res")})
+
+
+def check_histories(chk, rep, tier):
+    """one long-lived stream / format wrapper, a sequence of entries, inner faults in between"""
+    cfg = "MC_hist_quick.cfg" if tier == "quick" else "MC_hist.cfg"
+    r, beh, unames = tlc_behaviours(chk, "VPStreamHist", cfg)
+    runs = rotations(chk, 1 if tier == "quick" else 2, 12)
+    for b in beh:
+        b["runs"] = runs
+    outs = run_harness(chk, "hist", beh, "hist")
+    after_fault = 0
+    for b in beh:
+        o = outs[b["id"]]
+        d = Diff()
+        for ro in o["runs"]:
+            if "panic" in ro:
+                d.add("C15", "panic", f"panic while sending the history: {ro['panic']}")
+                continue
+            cmp_history(d, b, ro, unames)
+            chk.evaluations += len(b["steps"])
+        if not rep.report(d, "history through one", hsig(b), {"kind": "hist", "behaviour": b, "observed": o, "units": unames}):
+            chk.traces += 1
+        after_fault += sum(1 for st in b["steps"] if st["faulted_before"])
+        if any(st["faulted_before"] for st in b["steps"]):
+            chk.nontrivial.add("hist:" + hsig(b) + b["steps"][-1]["res"])
+    chk.extra["histories"] = len(beh)
+    chk.extra["history_entries_sent_after_an_inner_fault"] = after_fault
+    chk.sample({"history": hsig(beh[len(beh) // 2]), "results": [st["res"] for st in beh[len(beh) // 2]["steps"]]})
 
 
 def check_entry_cfg(chk, rep, tier, cfg, tag):
@@ -382,7 +445,8 @@ def check_entry_cfg(chk, rep, tier, cfg, tag):
 
 
 METRIC_SHAPES = {"u64", "f64", "mean", "tri", "u64_method", "opt_some", "dist_inner", "dist_outer", "box_arc", "zero"}
-ERROR_SHAPES = {"str": "unit-on-string", "mismatch": "unit-mismatch", "dist_mismatch": "unit-mismatch"}
+ERROR_SHAPES = {"str": "unit-on-string", "mismatch": "unit-mismatch", "dist_mismatch": "unit-mismatch",
+                "dist_str_unit": "collect-string"}
 DUR_SHAPES = {"dur", "dist_dur", "opt_dur"}
 RT_SHAPES = {"rt_tri"}
 
@@ -404,6 +468,8 @@ def expected_for_shape(p, sh):
             obs.append({"t": t, "slot": i + 1, "e2": e2, "e10": e10, "occ": occ.get(sh["shape"], 0) if t == "R" else 0})
         return {"kind": "metric", "obs": obs, "unit": unit, "dims": [], "flags": [], "err": ""}
     s = sh["shape"]
+    if s in ("mean_conv", "mean_dur"):
+        return p[s]
     if s in METRIC_SHAPES:
         return metric(p["to"], p["e2"], p["e10"])
     if s == "opt_none":
@@ -542,6 +608,7 @@ def run(prop, tier):
                     "with at least one non-container wrapper")
         check_value_stacks(chk, rep, tier)
         check_entry_stacks(chk, rep, tier)
+        check_histories(chk, rep, tier)
     else:
         chk.rule = ("evaluations = one statically typed shape (or stack, or #[metrics] field) written once with one magnitude; "
                     "traces = unit pairs / stacks / struct instances whose every evaluation matched; distinct_nontrivial = "
@@ -579,7 +646,7 @@ def replay(prop, path):
                     cmp_call(d, it["name"], byfield[it["name"]]["expect"], it["calls"], o["mags"][it["name"]], unames, True)
     else:
         b = rp["behaviour"]
-        cmd = {"value": "values", "entry": "entries", "pair": "pairs", "collect": "collect"}[rp["kind"]]
+        cmd = {"value": "values", "entry": "entries", "pair": "pairs", "collect": "collect", "hist": "hist"}[rp["kind"]]
         # the unwrapped value / entry with the same magnitudes, for the differential part
         b0 = dict(b, id=b["id"] + 1, stack=[]) if rp["kind"] in ("value", "entry") else None
         outs = run_harness(chk, cmd, [b] + ([b0] if b0 else []), "replay")
@@ -601,6 +668,12 @@ def replay(prop, path):
                     cmp_entry(d, b, ro, unames, plain=pl[k])
         elif rp["kind"] == "collect":
             cmp_collect(d, b, o, unames)
+        elif rp["kind"] == "hist":
+            for ro in o["runs"]:
+                if "panic" in ro:
+                    d.add(prop, "panic", ro["panic"])
+                else:
+                    cmp_history(d, b, ro, unames)
         else:
             for sh in o["shapes"]:
                 if "panic" in sh:
